@@ -478,6 +478,26 @@ func ObjectInto(t *rapid.T, label string, o *Opts, depth int, s J) {
 			s["required"] = req
 		}
 	}
+	if o.AllOf && len(o.allOfRefs()) > 0 && chance(t, label+"_oallof", 15) {
+		// own properties next to allOf members (inherited properties)
+		var members A
+		n := rapid.IntRange(1, 2).Draw(t, label+"_oan")
+		usedRef := map[string]bool{}
+		for i := 0; i < n; i++ {
+			if chance(t, fmt.Sprintf("%s_oaref%d", label, i), 70) {
+				r := rapid.SampledFrom(o.allOfRefs()).Draw(t, fmt.Sprintf("%s_oar%d", label, i))
+				if !usedRef[r] {
+					usedRef[r] = true
+					members = append(members, J{"$ref": "#/definitions/" + r})
+				}
+			} else {
+				members = append(members, J{"type": "object", "properties": J{"inherited" + PlainName(t, fmt.Sprintf("%s_oapn%d", label, i)): J{"type": "string"}}})
+			}
+		}
+		if len(members) > 0 {
+			s["allOf"] = members
+		}
+	}
 	if o.AddlProps && chance(t, label+"_oap", 15) {
 		switch rapid.IntRange(0, 2).Draw(t, label+"_oapk") {
 		case 0:
